@@ -261,12 +261,12 @@ CLAIMED = {
                 "equations; the anchor rule of is_collapsible is total and picks the stated target; anchor algebra; the cut vertex is the "
                 "exact midpoint and cuts conserve signed area (ring over Q); the midpoint is stored under the vertex id and both halves of "
                 "a cut boundary edge keep its anchor (after repair of D15c/D15b). The clauses the code does NOT satisfy are proved false by "
-                "decide witnesses and recorded as known findings (D9 swap averages corners; D15a,d,e,f,g collapse). Tie: every dart of "
+                "decide witnesses and recorded as known findings (D9 swap averages corners; D15a,d,e,f collapse). Tie: every dart of "
                 "1x1..3x3 split grids x swap/cut/collapse, plain/anchored/multi-surface/pre-refined meshes, adaptive histories, tx blocks "
                 "on the real kernels vs the model; independent oracle on exact Fractions (triangles, counts, areas, coordinates, flags, "
                 "anchors, orientation). Props/C15b.lean: b-level topology theorems on arbitrary WF maps for swap (twelve images, frame, triangles), outer and inner cut (spare darts placed as documented, pairings, frame), cells and face iterator after cut_outer_edge, midpoint at the vertex id in the FINAL map, and collapse_edge itself (interior edge, no anchors): WF unconditionally, exactly the six triangle darts flagged and free, neighbours re-glued, frame.",
-        "note": "Partial: the property is FALSE on the current tree in the recorded ways (known findings D9, D15a, D15d, D15e, D15f, D15g, "
-                "each with a structural matcher; D15b, D15c repaired). NOT proved (oracle only): local topology after swap/cut on arbitrary "
+        "note": "Partial: the property is FALSE on the current tree in the recorded ways (known findings D9, D15a, D15d, D15e, D15f, "
+                "each with a structural matcher; D15b, D15c, D15g repaired). NOT proved (oracle only): local topology after swap/cut on arbitrary "
                 "surrounding maps, global V/E/F counts, orientation of the whole fan after a collapse, that a successful collapse never sews "
                 "a null dart. Trusted: Lean kernel + 3 standard axioms; translator gen_lean.py (anchors).",
         "design_ref": "DESIGN.md §7 C15, §13.3",
